@@ -18,13 +18,13 @@ SIZES = [0, 1, 2, 3, 4, 6, 8, 12]
 
 
 def plan(env, tier, seed):
-    nt = 40 if tier == "quick" else 1200
+    nt = 120 if tier == "quick" else 12000
     tasks = []
     for b, e in env.items():
         for ty in TABLE_TYPES:
             tasks.append({"backend": b, "kind": "table", "ty": ty, "entry": e["reg"][ty], "bin": e["bins"]["x_conv"], "n": nt, "seed": seed})
         tasks.append({"backend": b, "kind": "temp", "ty": "Temperature", "entry": e["reg"]["Temperature"], "bin": e["bins"]["x_conv"],
-                      "n": 30 if tier == "quick" else 1500, "seed": seed})
+                      "n": 60 if tier == "quick" else 6000, "seed": seed})
     return tasks
 
 
